@@ -1444,6 +1444,25 @@ func (s *Service) runPipeline(rp *runnablePipeline) error {
 
 	for i, w := range rp.workers {
 		sourceID := rp.sourceIDs[i]
+
+		// Watch the errors the source connector reports asynchronously: a
+		// position write that could not be persisted, or a deferred ack that
+		// could not be delivered after all retries (connector.Source sends
+		// them on its Errors channel). Nothing else in this engine reads that
+		// channel; without a reader the sender blocks forever and the failure
+		// goes unnoticed - the pipeline keeps reporting 'running' while the
+		// affected records are never acknowledged to the source. Failing the
+		// run lets error recovery restart it from the last durable position.
+		// (A plain goroutine, not one the tomb waits for: it must not keep a
+		// gracefully stopping run alive. It ends with the run at the latest.)
+		go func() {
+			select {
+			case err := <-w.Source.Errors():
+				rp.t.Kill(cerrors.Errorf("source %s reported an asynchronous error: %w", sourceID, err))
+			case <-rp.t.Dead():
+			}
+		}()
+
 		workersWg.Add(1)
 		rp.t.Go(func() error {
 			defer workersWg.Done()
